@@ -187,7 +187,8 @@ def main():
     ap.add_argument('--out', required=True)
     a = ap.parse_args()
     import concepts as C
-    assert os.path.realpath(C.__file__).startswith(os.path.realpath(os.environ.get('VERIF_REPO', '/repo')))
+    if not os.path.realpath(C.__file__).startswith(os.path.realpath(os.environ.get('VERIF_REPO', '/repo'))):
+        raise SystemExit('wrong copy of concepts imported: ' + C.__file__)
     stats = {'behaviours': 0, 'events': 0, 'nontrivial': 0, 'samples': [], 'rejected': 0, 'accepted': 0}
     seen = set()
 
